@@ -155,45 +155,54 @@ structure Fail where
 
 def ttlKind (c : Ctx) : Bool := c.fl != .plain
 
-/-- which properties does an unexplainable event contradict? (`cands` = successors before filtering) -/
+/-- Which properties does an unexplainable event contradict?  (`cands` = successors before filtering.)
+The event is compared, field by field, with a reference candidate (one whose output matches if there is
+one): a wrong output, a wrong observer and a wrong sweep each name their own properties, and all that
+apply are reported. -/
 def classify (c : Ctx) (e : Event) (cands : List (RState × XOut)) : List String × String :=
   let outMatch := cands.filter (fun (_, x) => outOk x e.out)
-  if outMatch.isEmpty then
-    let exp := match cands with
-      | (_, some o) :: _ => showOut o
-      | _ => "?"
-    let d := s!"out ref=[{exp}] impl=[{showOut e.out}]"
-    match e.op with
-    | .insert .. | .insertRange .. => (["C09"], d)
-    | .find .. | .findRange .. | .findCount .. =>
-      (if ttlKind c then ["C01", "C03", "C04", "C05"] else ["C01", "C03"], d)
-    | .erase .. | .eraseRange .. => (["C01", "C03"], d)
-    | .clean => (["C17"], d)
-    | .size | .empty | .capacity => (["C02"], d)
-    | _ => (["C01"], d)
-  else
-    let obsSizeOk := outMatch.filter (fun (s, _) =>
-      s.ents.length == e.obs.size && (s.ents.length == 0) == e.obs.empty && (if c.fl == .eager then 0 else c.cap) == e.obs.cap)
-    let cleanP := match e.op with
-      | .clean => ["C17"]
-      | _ => []
-    let implSweep := e.obs.sweep.map (fun (k, v, _) => (k, v))
-    -- is the sweep explainable by some candidate with a matching output?
-    let sweepOkC := outMatch.filter (fun (s, _) => sweepOf c s e.now == implSweep)
+  let outProps : List String × String :=
+    if outMatch.isEmpty then
+      let exp := match cands with
+        | (_, some o) :: _ => showOut o
+        | _ => "?"
+      let d := s!"out ref=[{exp}] impl=[{showOut e.out}] "
+      match e.op with
+      | .insert .. | .insertRange .. => (["C09"], d)
+      | .find .. | .findRange .. | .findCount .. =>
+        (if ttlKind c then ["C01", "C03", "C04", "C05"] else ["C01", "C03"], d)
+      | .erase .. | .eraseRange .. => (["C01", "C03"], d)
+      | .clean => (["C17"], d)
+      | .size | .empty | .capacity => (["C02"], d)
+      | _ => (["C01"], d)
+    else ([], "")
+  let cleanP := match e.op with
+    | .clean => ["C17"]
+    | _ => []
+  let implSweep := e.obs.sweep.map (fun (k, v, _) => (k, v))
+  let pool := if outMatch.isEmpty then cands else outMatch
+  -- is the sweep explainable by some candidate of the pool?
+  let sweepOkC := pool.filter (fun (s, _) => sweepOf c s e.now == implSweep)
+  let sweepProps : List String × String :=
     if sweepOkC.isEmpty then
-      match outMatch with
+      match pool with
       | (s, _) :: _ =>
         let ref := sweepOf c s e.now
         let extra := implSweep.filter (fun x => !(ref.contains x))
         let missing := ref.filter (fun x => !(implSweep.map (·.1)).contains x.1)
         let p1 := if extra.isEmpty then [] else (if ttlKind c then ["C01", "C04"] else ["C01"])
         let p2 := if missing.isEmpty then [] else (if ttlKind c then ["C03", "C05"] else ["C03"])
-        (p1 ++ p2 ++ cleanP, s!"sweep ref=[{ref}] impl=[{implSweep}]")
-      | [] => (["C01"], "sweep")
-    else if obsSizeOk.isEmpty then
-      (["C02"] ++ cleanP, s!"observers impl size={e.obs.size} empty={e.obs.empty} cap={e.obs.cap}")
-    else
-      (["C02"] ++ cleanP, s!"observers and sweep not jointly explainable: impl size={e.obs.size}")
+        (p1 ++ p2 ++ cleanP, s!"sweep ref=[{ref}] impl=[{implSweep}] ")
+      | [] => ([], "")
+    else ([], "")
+  let pool2 := if sweepOkC.isEmpty then pool else sweepOkC
+  let obsOkC := pool2.filter (fun (s, _) =>
+    s.ents.length == e.obs.size && (s.ents.length == 0) == e.obs.empty && (if c.fl == .eager then 0 else c.cap) == e.obs.cap)
+  let obsProps : List String × String :=
+    if obsOkC.isEmpty then (["C02"] ++ cleanP, s!"observers impl size={e.obs.size} empty={e.obs.empty} cap={e.obs.cap}")
+    else ([], "")
+  let ps := dedup (outProps.1 ++ sweepProps.1 ++ obsProps.1)
+  (if ps.isEmpty then ["C02"] else ps, outProps.2 ++ sweepProps.2 ++ obsProps.2)
 
 /-- more simultaneous candidates than this and the script is given up as undecided (never as a
 failure): many expired-but-unreaped entries make the set of possible victims large -/
